@@ -198,6 +198,64 @@ def inline_aliases(tree: ast.Module, modname: str) -> int:
         sigs = localsig.signatures(fn)
         unknown = {nm for nm, key in sigs.items() if key not in ref and nm not in ref.values()}
         n += inline_aliases_in(fn, unknown)
+        n += loops_to_comprehensions(fn, unknown)
     if n:
         ast.fix_missing_locations(tree)
     return n
+
+
+# --------------------------------------------------------------------------- append loops over a new list
+def _is_empty_list(e: ast.AST) -> bool:
+    return (isinstance(e, ast.List) and not e.elts) or (isinstance(e, ast.Call) and isinstance(e.func, ast.Name) and e.func.id == "list" and not e.args and not e.keywords)
+
+
+def loops_to_comprehensions(fn: ast.AST, unknown: Set[str]) -> int:
+    """`L = []; for t in it: [if c: continue]* L.append(e)` with a list local the reference tree does not know is the
+    comprehension `L = [e for t in it if not c]` (the reference spelling of a `comprehension -> explicit loop`
+    refactoring); when L is then used exactly once, in the next statement, it is inlined there."""
+    done = 0
+    for b in list(_blocks(fn)):
+        i = 0
+        while i + 1 < len(b):
+            st, lp = b[i], b[i + 1]
+            i += 1
+            if not (isinstance(st, ast.Assign) and len(st.targets) == 1 and isinstance(st.targets[0], ast.Name) and st.targets[0].id in unknown
+                    and _is_empty_list(st.value) and isinstance(lp, ast.For) and not lp.orelse and lp.body):
+                continue
+            L = st.targets[0].id
+            conds: List[ast.AST] = []
+            body = list(lp.body)
+            ok = True
+            while len(body) > 1:
+                g = body.pop(0)
+                if isinstance(g, ast.If) and not g.orelse and len(g.body) == 1 and isinstance(g.body[0], ast.Continue):
+                    conds.append(ast.UnaryOp(op=ast.Not(), operand=g.test))
+                else:
+                    ok = False
+                    break
+            if not ok:
+                continue
+            last = body[0]
+            if isinstance(last, ast.If) and not last.orelse and len(last.body) == 1:
+                conds.append(last.test)
+                last = last.body[0]
+            if not (isinstance(last, ast.Expr) and isinstance(last.value, ast.Call) and isinstance(last.value.func, ast.Attribute)
+                    and last.value.func.attr == "append" and isinstance(last.value.func.value, ast.Name) and last.value.func.value.id == L
+                    and len(last.value.args) == 1 and not last.value.keywords):
+                continue
+            uses_in_loop = sum(1 for x in ast.walk(lp) if isinstance(x, ast.Name) and x.id == L)
+            if uses_in_loop != 1:
+                continue
+            comp = ast.ListComp(elt=last.value.args[0], generators=[ast.comprehension(target=lp.target, iter=lp.iter, ifs=conds, is_async=0)])
+            st.value = ast.copy_location(comp, lp)
+            del b[i]
+            done += 1
+            # single use in the next statement: inline
+            total = sum(1 for x in ast.walk(fn) if isinstance(x, ast.Name) and x.id == L)
+            if i < len(b) and total == 2 and isinstance(b[i], (ast.Return, ast.Assign, ast.Expr)):
+                uses = [x for x in ast.walk(b[i]) if isinstance(x, ast.Name) and x.id == L and isinstance(x.ctx, ast.Load)]
+                if len(uses) == 1:
+                    _Repl({id(uses[0]): comp}).visit(b[i])
+                    del b[i - 1]
+                    i -= 1
+    return done
